@@ -127,7 +127,9 @@ def compile_or_prune(ctx, name, problem, own_crashes=False):
 
     try:
         res = run_compiler(name, problem)
-    except UPProblemDefinitionError:
+    except UPProblemDefinitionError as e:
+        if own_crashes and "already defined" in str(e):
+            raise  # a name clash produced by the compiler itself is not a documented rejection of the input (C08)
         ctx.witness("documented-rejection")
         ctx.assume(False)
     except Exception:
